@@ -110,8 +110,13 @@ class Ctx:
         return len(states)
 
     # ------------------------------------------------------------------ Go harness
-    def overlay(self, pkg):
-        """pkg: path relative to the repository root ('.' for the root package)."""
+    def overlay(self, pkg, also=()):
+        """pkg: path relative to the repository root ('.' for the root package).
+        Only harness files tagged with this property's id (zz_verif_c11_test.go, zz_verif_c11_x_test.go) or with a tag
+        listed in `also` (zz_verif_<tag>_test.go) are injected, so unrelated harness files cannot break the build."""
+        tags = [self.pid.lower()] + [a.lower() for a in also]
+        if self.pid == 'warm':
+            tags = None
         hdir = os.path.join(ROOT, 'harness', '_root' if pkg in ('.', '') else pkg)
         if not os.path.isdir(hdir):
             raise MachineryError('no harness directory for package %s' % pkg)
@@ -119,6 +124,8 @@ class Ctx:
         pkgname = None
         for fn in sorted(os.listdir(hdir)):
             if not fn.endswith('.go'):
+                continue
+            if tags is not None and not any(('_%s_' % tg) in fn or ('_%s.' % tg) in fn for tg in tags):
                 continue
             src = os.path.join(hdir, fn)
             if pkgname is None and fn.endswith('_test.go'):
@@ -147,9 +154,9 @@ class Ctx:
             json.dump({'Replace': rep}, f)
         return opath
 
-    def gotest(self, pkg, run, env=None, tags='verif', timeout=1200, indir=None, name=None, count=True):
+    def gotest(self, pkg, run, env=None, tags='verif', timeout=1200, indir=None, name=None, count=True, also=()):
         """Run one harness test of package pkg. The test reads $VERIF_IN/*, writes $VERIF_OUT/result.json."""
-        ov = self.overlay(pkg)
+        ov = self.overlay(pkg, also)
         name = name or run
         outdir = os.path.join(self.scratch, 'out_' + re.sub(r'\W', '_', name))
         shutil.rmtree(outdir, ignore_errors=True)
